@@ -174,6 +174,7 @@ def shard_dispatch(sh, part):
     args = types.SimpleNamespace(heuristic='MI-numba-3mr', mi_stratified_sampling_ratio=1.0, label_column='label', reference_model_JSON='')
     reps = 120 if sh.tier == 'quick' else 600
     n_fixed = rng.choice([64, 200])
+    persistent = None
     for t in range(reps):
         cls = rng.choice(gen.PAIR_CLASSES)
         n = n_fixed if t % 2 else rng.choice([2, 5, 30, 200, 1000])
@@ -186,7 +187,13 @@ def shard_dispatch(sh, part):
             if ok:
                 sh.check('plugin-mi', oracles.close32(s, mi), 'dispatched-score!=plugin-mi', lambda: wit(got=float(s), feature_shape=shape))
         # same column names, same number of rows, different content than the previous frame
-        df = pd.DataFrame({'f': Y, 'label': X})
+        if t % 3 == 2 and persistent is not None and len(persistent) == n:
+            df = persistent                      # the same frame object, columns overwritten in place (one feature set scored against several targets)
+            df['f'] = Y
+            df['label'] = X
+        else:
+            df = pd.DataFrame({'f': Y, 'label': X})
+            persistent = df
         ok, res = sh.call('plugin-mi', 'get_importances_estimate_pairwise', ie.get_importances_estimate_pairwise, ('f', 'label'), {}, args, df)
         if ok:
             sh.check('plugin-mi', res[0] == 'f' and res[1] == 'label' and oracles.close32(res[2], mi), 'pairwise-estimate!=plugin-mi-of-this-frame', lambda: wit(got=float(res[2]), consecutive_frame=t))
